@@ -10,6 +10,7 @@ from common import Scn, hx, Opt, CFGF
 import gen
 
 VARIANT = 'asan'
+COMPARE_LINES = True      # line numbers in diagnostics are part of this property
 RULE = ('accepted item lists x random include trees (depth 1..12) x 3 placements (cwd, search path, absolute); failing includes '
         'x repetitions 1..12 followed by a good one; non-trivial = nesting depth >= 2 or a failing include; distinct by text')
 F = CFGF
